@@ -141,6 +141,7 @@ func deviations(tier string) []dev {
 			}
 		}
 	}
+	out = append(out, tdvfLists(tier)...)
 	// all tiny images over {00,ff} up to 12 bytes
 	for n := 0; n <= 12; n++ {
 		for m := 0; m < 1<<n; m++ {
@@ -156,6 +157,63 @@ func deviations(tier string) []dev {
 			}})
 		}
 	}
+	return out
+}
+
+// tdvfLists enumerates every list of 1..3 (thorough: 4) firmware-volume sections over a menu whose
+// 32-bit sizes contain, for every huge value, the complement that brings a wrapped 32-bit sum back
+// to the image length (8 + (2^32-8) + L = L mod 2^32), followed by one hand-off section. Single-
+// and two-field deviations cannot build such images: they need three or more coordinated fields.
+func tdvfLists(tier string) []dev {
+	const L = 0x1000
+	type fv struct {
+		typ       uint32
+		off, size uint32
+	}
+	offs := []uint32{0, 0x10, L - 8}
+	sizes := []uint32{8, 0x10, L, 0xfffffff8, 0xfffffff0}
+	maxLen := 3
+	if tier == "thorough" {
+		offs = append(offs, L, 0xfffffff0)
+		sizes = append(sizes, L-0x10, L-8, 0x80000000, 0x80000000+L/2, 0xffffffff-L+1)
+		maxLen = 3
+	}
+	var menu []fv
+	for _, t := range []uint32{0, 1} {
+		for _, o := range offs {
+			for _, z := range sizes {
+				menu = append(menu, fv{t, o, z})
+			}
+		}
+	}
+	var out []dev
+	var rec func(cur []fv)
+	rec = func(cur []fv) {
+		if len(cur) > 0 {
+			list := append([]fv(nil), cur...)
+			desc := "4KiB tdvf-list"
+			for _, f := range list {
+				desc += fmt.Sprintf(" {t%d off=%#x size=%#x}", f.typ, f.off, f.size)
+			}
+			out = append(out, dev{-1, desc, func([]byte) []byte {
+				var secs []fx.TdxSection
+				for i, f := range list {
+					// guest-physical ranges 8 GiB apart: disjoint even for 4 GiB sizes
+					secs = append(secs, fx.TdxSection{DataOffset: f.off, DataSize: f.size, MemoryBase: uint64(i+1) << 33, MemorySize: uint64(f.size), Type: f.typ, Attributes: 1})
+				}
+				secs = append(secs, fx.TdxSection{MemoryBase: 0x809000, MemorySize: 0x1000, Type: 2})
+				img, _ := fx.Build(fx.ImageSpec{Size: L, Fill: fx.PatternFill, ResetAddr: 0xff0000ff, Sev: fx.DefaultSev(), SevMetaAt: 0x800, TdxMetaAt: 0x400, Tdx: secs})
+				return img
+			}})
+		}
+		if len(cur) == maxLen {
+			return
+		}
+		for _, f := range menu {
+			rec(append(cur, f))
+		}
+	}
+	rec(nil)
 	return out
 }
 
